@@ -85,7 +85,15 @@ func posObserve(files []*dst.File, names []string) ([]posFile, string) {
 // posObserveMode restores ALL files first (with one Restorer, or with one re-used FileRestorer) and
 // only then projects each of them: an earlier file must still be coherent after later restores.
 func posObserveMode(files []*dst.File, names []string, reuseFileRestorer bool) ([]posFile, string) {
+	return posObserveExtras(files, names, reuseFileRestorer, false)
+}
+
+// extras: the files are restored with Restorer.Extras; the positions of the nodes that are reachable
+// only through an Object (the AssignStmt the parser invents for range variables, declarations removed
+// from the tree) are positions the restorer assigns as well
+func posObserveExtras(files []*dst.File, names []string, reuseFileRestorer, extras bool) ([]posFile, string) {
 	r := decorator.NewRestorer()
+	r.Extras = extras
 	fr := r.FileRestorer()
 	var out []posFile
 	asts := make([]*ast.File, len(files))
@@ -133,6 +141,48 @@ func posObserveMode(files []*dst.File, names []string, reuseFileRestorer bool) (
 			for _, cm := range cg.List {
 				pf.Positions = append(pf.Positions, int(cm.Slash), int(cm.End()))
 				pf.Comments = append(pf.Comments, int(cm.Slash))
+			}
+		}
+		if extras {
+			inFile := map[ast.Node]bool{}
+			for _, n := range nodesR {
+				inFile[n] = true
+			}
+			seenObj := map[*ast.Object]bool{}
+			var fromObj func(o *ast.Object)
+			visit := func(x interface{}) {
+				root, ok := x.(ast.Node)
+				if !ok || root == nil || inFile[root] {
+					return
+				}
+				ast.Inspect(root, func(n ast.Node) bool {
+					if n == nil || inFile[n] {
+						return n != nil && !inFile[n]
+					}
+					inFile[n] = true
+					for _, p := range posFields(n) {
+						if p.IsValid() {
+							pf.Positions = append(pf.Positions, int(p))
+						}
+					}
+					if id, ok := n.(*ast.Ident); ok && id.Obj != nil {
+						fromObj(id.Obj)
+					}
+					return true
+				})
+			}
+			fromObj = func(o *ast.Object) {
+				if o == nil || seenObj[o] {
+					return
+				}
+				seenObj[o] = true
+				visit(o.Decl)
+				visit(o.Data)
+			}
+			for _, n := range nodesR {
+				if id, ok := n.(*ast.Ident); ok && id.Obj != nil {
+					fromObj(id.Obj)
+				}
 			}
 		}
 		sort.Ints(pf.Positions)
@@ -269,7 +319,17 @@ func checkC12(c *Ctx) {
 		if i%4 == 1 {
 			groups = append(groups, group{[]int{i}, "signatures-rebuilt"})
 		}
+		if i%4 == 2 {
+			groups = append(groups, group{[]int{i}, "extras"})
+		}
+		if i%8 == 3 {
+			groups = append(groups, group{[]int{i}, "extras-removed"})
+		}
 	}
+	// two files with range statements, restored with Extras into one file set
+	files = append(files, srcFile{"extras-range-a", []byte("package p\n\nfunc a(m map[string]int) (s string) {\n\tfor k, e := range m {\n\t\tif e > 0 {\n\t\t\ts = k\n\t\t}\n\t}\n\treturn\n}\n")},
+		srcFile{"extras-range-b", []byte("package p\n\nfunc b(xs []int) (n int) {\n\tfor i, x := range xs {\n\t\tn += i * x\n\t}\n\treturn\n}\n")})
+	groups = append(groups, group{[]int{len(files) - 2, len(files) - 1}, "extras"}, group{[]int{len(files) - 1, len(files) - 2}, "extras"}, group{[]int{len(files) - 2}, "extras"})
 	for k := 0; k < len(files)/3; k++ {
 		n := 2 + r0.Intn(3)
 		g := group{mode: "plain"}
@@ -342,6 +402,11 @@ func checkC12(c *Ctx) {
 						fd.Type = &dst.FuncType{TypeParams: fd.Type.TypeParams, Params: fd.Type.Params, Results: fd.Type.Results}
 					}
 				}
+			case "extras-removed":
+				// the first half of the declarations leaves the tree; objects of the rest still point there
+				if _, isImport := df.Decls[0].(*dst.GenDecl); !(isImport && len(df.Imports) > 0) && len(df.Decls) > 1 {
+					df.Decls = df.Decls[len(df.Decls)/2:]
+				}
 			case "edited":
 				r.Shuffle(len(df.Decls), func(a, b int) {
 					if _, ok := df.Decls[a].(*dst.GenDecl); ok && df.Decls[a].(*dst.GenDecl).Tok == token.IMPORT {
@@ -363,7 +428,11 @@ func checkC12(c *Ctx) {
 		}
 		keys[gi] = key
 		c.Eval(key, g.mode != "plain" || len(g.idx) > 1)
-		obs, msg := posObserveMode(dfs, names, reuse)
+		obs, msg := posObserveExtras(dfs, names, reuse, strings.HasPrefix(g.mode, "extras"))
+		if msg != "" && g.mode == "extras-removed" {
+			c.Add("extras_removed_inapplicable", 1) // Extras asks the user to manage objects of removed nodes
+			return
+		}
 		if msg != "" {
 			c.Fail(Finding{Sig: "restore-fails", Input: key, What: msg, Replay: obj{"kind": "c12", "paths": names, "mode": g.mode, "seed": seeds[gi]}})
 			return
@@ -507,6 +576,9 @@ func init() {
 		for _, p := range r.Paths {
 			src, err := os.ReadFile(p)
 			if err != nil {
+				if r.Mode == "extras" || r.Mode == "extras-removed" {
+					return "" // generated source: not replayable from a path
+				}
 				return "harness: " + err.Error()
 			}
 			df, err := decorator.Parse(src)
@@ -516,9 +588,12 @@ func init() {
 			if r.Mode == "markers" {
 				c12Markers(df, rr)
 			}
+			if r.Mode == "extras-removed" && len(df.Decls) > 1 {
+				df.Decls = df.Decls[len(df.Decls)/2:]
+			}
 			dfs = append(dfs, df)
 		}
-		obs, msg := posObserve(dfs, r.Paths)
+		obs, msg := posObserveExtras(dfs, r.Paths, false, strings.HasPrefix(r.Mode, "extras"))
 		if msg != "" {
 			return msg
 		}
